@@ -8,8 +8,6 @@ from functools import partial
 from typing import TYPE_CHECKING
 
 # Third Party Imports
-from numpy import array
-from numpy import max as np_max
 from numpy import ones_like, spacing, zeros
 from scipy.integrate import solve_ivp
 
@@ -286,7 +284,9 @@ class Celestial(Dynamics, metaclass=ABCMeta):
 
             # Pull out solved states at each `times`
             n_t = len(solution.t)
-            states = solution.y
+            # [NOTE]: no requested time inside this segment (two events between two output times, or an
+            #   event that re-triggers): `solve_ivp` then returns empty lists
+            states = solution.y if n_t else zeros((*state_shape, 0))
 
             # Integration completed, check if event occurred between last two `times`
             if solution.status == 0 and len(times) == 0:
@@ -297,23 +297,24 @@ class Celestial(Dynamics, metaclass=ABCMeta):
             states = states.reshape((*state_shape, n_t)).copy()
 
             # Retrieve time when integration stopped, should auto-exit the loop if fully-integrated
-            if array(solution.t_events).size == 0:
+            # [NOTE]: `t_events` holds one array per event function, only some of them non-empty
+            fired = [idx for idx, t_event in enumerate(solution.t_events) if t_event.size > 0]
+            if not fired:
                 current_time = solution.t[-1]
                 # print(states.shape, states[...,-1].shape, states[::,-1].shape)
                 current_state = states[..., -1]  # .reshape(state_shape)
             else:
                 # Retrieve the current state & update the initial state for next loop
-                current_time = np_max(solution.t_events)
+                current_time = max(solution.t_events[idx][-1] for idx in fired)
                 current_state = self._applyEvents(
                     t_events=solution.t_events,
                     events=events,
-                    # [TODO]: Make this more robust. What about multiple events?
-                    current_state=solution.y_events[0].reshape(state_shape),
+                    current_state=solution.y_events[fired[0]][-1].reshape(state_shape),
                 )
 
                 # Properly copies updated state back into full state vector for when
                 # an event occurs on a `times`
-                if current_time == solution.t[-1]:
+                if n_t and current_time == solution.t[-1]:
                     states[..., -1] = current_state.copy()
 
             # [TODO]: This may not be needed?
